@@ -2,6 +2,8 @@
 # tools/seedcheck.sh <property id> <dir with patch.diff> [tier]
 # Applies a seeded change to /repo, runs the property's check, and undoes the change straight afterwards.
 set -u
+# exclusive lock on /repo for the time the seeded change is applied (checks hold it shared)
+if [ -z "${VERIF_REPO_LOCK_HELD:-}" ]; then exec env VERIF_REPO_LOCK_HELD=1 flock -x /tmp/gold-verif-repo.lock sh "$0" "$@"; fi
 PID="$1"; DIR="$(cd "$2" && pwd)"; TIER="${3:-quick}"
 cd /verif
 if ! git -C /repo diff --quiet; then echo "refusing: /repo has uncommitted changes"; exit 2; fi
